@@ -536,3 +536,5 @@ _MINE = [k for k in list(CONTRACTS) + list(COROLLARIES) if k not in _before]
 
 
 CONTRACTS[G + "scaled_coordinates_1d_from"].unsigned_twin = ("pixel_coordinates_1d",)
+# rounding the query point puts it ON a pixel boundary, where the statement says nothing and floating point decides
+CONTRACTS[G + "pixel_coordinates_1d_from"].no_int_twin_params = ("scaled_coordinates_1d",)
